@@ -600,7 +600,24 @@ MappingUnmarshaller = CastUnmarshaller[tp.Mapping]
 IterableUnmarshaller = CastUnmarshaller[tp.Iterable]
 
 EnumT = tp.TypeVar("EnumT", bound=enum.Enum)
-EnumUnmarshaller = CastUnmarshaller[EnumT]
+
+
+class EnumUnmarshaller(CastUnmarshaller[EnumT], tp.Generic[EnumT]):
+    """Unmarshaller that converts an input to a member of an [`enum.Enum`][], by value."""
+
+    __slots__ = ()
+
+    def __call__(self, val: tp.Any) -> EnumT:
+        """Unmarshal a value into the bound `EnumT` type.
+
+        Args:
+            val: The input value to unmarshal.
+        """
+        # A member is already valid. Check before decoding: the text of a str-mixin
+        # member may parse as JSON or a literal and would no longer match its own value.
+        if isinstance(val, self.t):
+            return val
+        return super().__call__(val)
 
 
 LiteralT = tp.TypeVar("LiteralT")
